@@ -1,6 +1,11 @@
 //! Deterministic simulation of statime: simulated world, reference codec and
 //! models, and the per-property checks.
+pub mod checks;
 pub mod clock;
+pub mod driver;
+pub mod script;
 pub mod host;
+pub mod model;
+pub mod netgen;
 pub mod support;
 pub mod wire;
